@@ -217,6 +217,9 @@ Definition dkg_with (c : dkg_conf) (q : list (Z * dkg_part)) (updated : Z) (poly
   {| dc_quorum := q; dc_created := dc_created c; dc_updated := updated;
      dc_expires := dc_expires c; dc_pubpoly := poly |}.
 
+(* token the harness assigns to the text "public polynomial is mismatched" *)
+Definition tok_poly_mismatch : tok := 2%N.
+
 (* action{Commit,Deal,Response,MasterKey}ConfirmationReceived; poly = Some t only for phase 3 *)
 Definition dkg_confirm (k : N) (p : payload) (pid : Z) (data : tok) (poly : option tok) (created : Z) : cbres :=
   if (pid <? 0) || N.eqb data 0 || is_zero_time created then CbErr p else
@@ -227,6 +230,17 @@ Definition dkg_confirm (k : N) (p : payload) (pid : Z) (data : tok) (poly : opti
       | None => CbErr p
       | Some d =>
           if negb (N.eqb (dp_status d) (dkg_await k)) then CbErr p else
+          (* a key announcement whose public polynomial differs from the one already retained:
+             the participant is marked with an error (the validation then cancels the round) *)
+          let mismatch := match poly with
+                          | Some t => negb (N.eqb (dc_pubpoly c) 0) && negb (N.eqb (dc_pubpoly c) t)
+                          | None => false end in
+          if mismatch then
+            let d' := {| dp_name := dp_name d; dp_dkgpub := dp_dkgpub d; dp_commit := dp_commit d;
+                         dp_deal := dp_deal d; dp_response := dp_response d; dp_master := dp_master d;
+                         dp_status := dkg_error k; dp_error := Some tok_poly_mismatch; dp_updated := created |} in
+            CbOk "" None (set_dkg p (dkg_with c (qset (dc_quorum c) pid d') created (dc_pubpoly c)))
+          else
           let d' := dkg_set_data k d data (dkg_confirmed k) created in
           let poly' := match poly with Some t => t | None => dc_pubpoly c end in
           CbOk "" None (set_dkg p (dkg_with c (qset (dc_quorum c) pid d') created poly'))
